@@ -1,6 +1,6 @@
 (* Entry points of the executable model, addressed by a numeric code (table mirrored in the harness). *)
 From Coq Require Import ZArith List.
-From WPU Require Import Common.Val Model.Buffers Model.Generic Model.Spans Model.IntervalMap Model.Combos Model.DLL Model.Caches Model.Sorted Model.LineFile Model.Csv Model.TmpPool.
+From WPU Require Import Common.Val Model.Buffers Model.Generic Model.Spans Model.IntervalMap Model.Combos Model.DLL Model.Caches Model.Sorted Model.LineFile Model.Csv Model.TmpPool Model.Pool.
 Import ListNotations.
 Open Scope Z_scope.
 
@@ -15,7 +15,8 @@ Definition table : list (Z * (val -> val)) :=
     (900, run_sorted_set); (901, run_sorted_map);
     (1100, run_linefile); (1200, run_mutfile);
     (1300, run_csv_seq); (1301, run_json_assumed);
-    (2000, run_tmppool); (2001, run_filepool) ].
+    (2000, run_tmppool); (2001, run_filepool);
+    (100, run_pool) ].
 
 Fixpoint lookup (t : list (Z * (val -> val))) (code : Z) : option (val -> val) :=
   match t with
